@@ -9,6 +9,7 @@ import dataclasses
 import inspect
 import itertools
 import sys
+import time
 import types
 import typing
 
@@ -86,7 +87,10 @@ def sample_value(rng, tname, for_default=False):
 def sample_input_value(rng, m):
     """a wire value for a present key: well typed, sometimes in need of conversion, null for nullable fields"""
     tname = m["type"]
-    nullable = TYPES[tname][2] or m["def"] == ("val", None)
+    # null is sent to a field that is nullable by type or by a None default; not when that default is only the
+    # inherited class attribute the eager mixin build cannot see (known finding override-inherits-class-default:
+    # there the null would be converted and fail with InvalidFieldValue, which this model does not cover)
+    nullable = TYPES[tname][2] or (m["def"] == ("val", None) and not m["inherits_class_default"])
     if nullable and rng.random() < 0.3:
         return None
     if m["pass"]:
@@ -145,6 +149,11 @@ def gen_program(rng, nmax):
                 tname = rng.choice(list(TYPES))
                 m = {"name": name, "kind": "normal", "type": tname, "rhs": None}
                 want_default = mi >= cut or rng.random() < 0.15
+                if override and base.get("kind") == "normal" and base.get("rhs") and base["rhs"][0] == "plain" \
+                        and rng.random() < 0.25:
+                    # re-annotation without a value of a member whose base has a class-level default
+                    cls["members"].append(m)
+                    continue
                 use_field = rng.random() < 0.45
                 if tname == "List[int]" and want_default:
                     use_field = True
@@ -679,7 +688,10 @@ def run(ctx: vlib.Ctx):
         "init=False/InitVar/ClassVar/overridden members, mixin eager+lazy+slots and plain dataclasses) accepted by Python; "
         "for each entry point (from_dict, BasicDecoder) every subset of the member names as input keys, one random "
         "well-typed value assignment per subset; distinct = (layout shape, entry timing, key subset)")
-    ctx.theorems("props/C07_bind.vo", ["C07_noninit_unread"])
+    ctx.theorems("props/C07_bind.vo", [
+        "C07_binding_partial", "C07_binding_post", "C07_binding", "C07_missing", "C07_null_wins",
+        "C07_positional_prefix", "C07_noninit_unread", "C07_factory_fresh",
+        "C07_binding_refuted", "C07_noninit_refuted_plain_base"])
     ctx.trusted += [
         "Bind.bind/step/walk: model of CPython dataclass __init__ binding, default materialisation and factory call "
         "order (compared with the real classes on every run, incl. inspect.signature)",
@@ -693,12 +705,13 @@ def run(ctx: vlib.Ctx):
         "inputs are well typed for the field (null only for nullable fields); aliases, hooks, discriminators, "
         "forbid_extra_keys and dialects are other properties",
     ]
-    nprog = ctx.budget(45, 420)
+    nprog = ctx.budget(80, 900)
     nmax = ctx.budget(8, 10)
     lays: list[str] = []
     cases: list[str] = []
     index: list[tuple] = []        # per case: (program idx, entry, mask, d)
     progs: list[dict] = []
+    oracle_bad: set[int] = set()
     for pi in range(nprog):
         prog = make_program(ctx.rng, nmax)
         src = render(prog)
@@ -741,11 +754,12 @@ def run(ctx: vlib.Ctx):
                     rout = "RTypeError"
                 else:
                     rout = "ROther"
-                cases.append("(%d%%nat, %s, %s)" % (li, coq_inp(d), rout))
+                cases.append((li, "%s, %s" % (coq_inp(d), rout)))
                 index.append((len(progs) - 1, entry, timing, mask, d, members))
                 # oracle
                 bad = oracle(mod.TARGET, members, d, outcome)
                 if bad is not None:
+                    oracle_bad.add(len(cases) - 1)
                     what, culprit = bad
                     sig = signature_of(prog, entry, timing, members, culprit, outcome)
                     info["fails"] += 1
@@ -757,11 +771,14 @@ def run(ctx: vlib.Ctx):
                 ctx.sample({"classes": src[len(PRELUDE):], "entry": entry, "timing": timing,
                             "signature": [sigpos, sigkw]})
 
-    # (M) correspondence: model vs implementation on every run above
-    defs = "Definition lays : list lay :=\n  [" + ";\n   ".join(lays) + "].\n"
-    bad, log = vlib.coq_bad_idx("c07_bind", "Bind BindCases", "", defs, cases, "case_ok lays", "nat * inp * rout",
-                                shard=ctx.budget(700, 2500), timeout=800, needs=["theories/BindCases.vo"])
+    # (M) correspondence: model vs implementation on every run above; in the same Coq pass the Coq reference
+    # semantics (ref_decode) is compared with the model: model <> reference must hold exactly where the python
+    # oracle rejects the real outcome (the modelled known findings)
+    t_coq = time.time()
+    bad, rbad, log = coq_two_idx("c07_bind", lays, cases, ctx.budget(1500, 2500))
+    ctx.coverage["phase_seconds"] = {"python": round(t_coq - ctx.t0, 1), "coq_cases": round(time.time() - t_coq, 1)}
     name = "binding-model-vs-from_dict"
+    name2 = "coq-reference-vs-python-oracle"
     if bad is None:
         ctx.correspondence(name, len(cases), -1, log)
         ctx.not_shown("correspondence " + name, log)
@@ -775,8 +792,54 @@ def run(ctx: vlib.Ctx):
         if bad:
             ctx.not_shown("correspondence " + name, detail)
             search_around(ctx, progs, index, bad)
+        else:
+            diff = sorted(set(rbad) ^ oracle_bad)
+            detail = ""
+            if diff:
+                pi, entry, timing, mask, d, members = index[diff[0]]
+                detail = "first of %d: %s entry %s timing %s input %r\n%s" % (
+                    len(diff), "reference only" if diff[0] in set(rbad) else "oracle only", entry, timing, d,
+                    progs[pi]["src"][len(PRELUDE):])
+            ctx.correspondence(name2, len(cases), len(diff), detail)
+            ctx.coverage["model_differs_from_reference"] = len(rbad)
+            if diff:
+                ctx.not_shown("correspondence " + name2, detail)
     for info in progs:
         unload(info["mod"])
+
+
+def coq_two_idx(name, lays, cases, shard):
+    """one Coq pass over the cases: (indices where case_ok fails, indices where ref_agrees fails, log);
+    (None, None, log) when Coq failed"""
+    import re
+    br = vlib.coq_make(["theories/Wire.vo", "theories/PyK.vo", "theories/BindCases.vo"])
+    if not br.ok:
+        return None, None, "model does not build: " + (br.error or "")
+    files = []
+    for si in range(0, max(len(cases), 1), shard):
+        chunk = cases[si:si + shard]
+        used = sorted({li for li, _ in chunk})          # only the layouts this shard needs, renumbered
+        local = {li: n for n, li in enumerate(used)}
+        txt = vlib.CASE_HEADER.format(imports="Bind BindCases", gen_imports="")
+        txt += "Definition lays : list lay :=\n  [" + ";\n   ".join(lays[li] for li in used) + "].\n"
+        txt += "Definition cases : list (nat * inp * rout) :=\n  [" + ";\n   ".join(
+            "(%d%%nat, %s)" % (local[li], rest) for li, rest in chunk) + "].\n"
+        txt += "Eval vm_compute in (bad_idx (case_ok lays) cases).\n"
+        txt += "Eval vm_compute in (bad_idx (ref_agrees lays) cases).\n"
+        files.append(("%s_%d" % (name, si // shard), txt))
+    res = vlib.coq_eval_many(files, timeout=800, jobs=8)
+    bad, rbad = [], []
+    for n, (ok, out) in enumerate(res):
+        if not ok:
+            return None, None, out[-3000:]
+        parts = re.findall(r"=\s*(\[[^\]]*\])\s*(?:%nat)?\s*:\s*list nat", out, re.S)
+        if len(parts) != 2:
+            return None, None, "unparsable coq output: " + out[-1500:]
+        for tgt, body in zip((bad, rbad), parts):
+            body = body.strip()[1:-1].strip()
+            if body:
+                tgt.extend(n * shard + int(x.replace("%nat", "").strip()) for x in body.split(";"))
+    return bad, rbad, ""
 
 
 def search_around(ctx, progs, index, bad):
